@@ -48,6 +48,12 @@ func (g *yarnGen) expr(d int) string {
 	}
 	switch r {
 	case 0:
+		if g.rnd.Intn(12) == 0 {
+			// grammar-valid NUMBER literals of unusual size: beyond the largest double, hundreds of
+			// fraction digits, many leading zeros
+			return g.pick([]string{"1" + strings.Repeat("0", 400), "17976931348623160" + strings.Repeat("0", 292), strings.Repeat("9", 310) + ".5",
+				"0." + strings.Repeat("0", 400) + "1", "3." + strings.Repeat("14159", 80), strings.Repeat("0", 300) + "7", "9007199254740993", "18446744073709551616"})
+		}
 		return fmt.Sprint(g.rnd.Intn(100))
 	case 1:
 		return fmt.Sprintf("%d.%d", g.rnd.Intn(10), g.rnd.Intn(100))
